@@ -11,6 +11,11 @@ independent decoder tools/h5spec.py (written from the HDF5 File Format Specifica
       oracle (tools/histlib.py) - independently of the library's own reader,
   (e) every departure from the specification the decoder had to tolerate carries a tag listed for C05 in
       KNOWN_FINDINGS.json (printed as KNOWN-FINDING); an unlisted tag or any failure of (a)-(d) is a VIOLATION.
+Files with NEW-STYLE GROUPS (CreateDenseGroup, CreateGroupWithLinks with more than 8 links) cannot be decoded by tools/h5spec.py
+(Unsupported): everything outside those groups is still judged by it, and the whole file - the dense link storage included - by the
+Coq whole-file walker coq/theories/Spec/Walk.v evaluated with vm_compute (judge_dense; budget DENSE_BUDGET files per run, the others are
+counted as unjudged_new_style_group_files): accepted by the tolerant walk, walk_ok (theorem C05_walk_accepts_disjoint), tags listed,
+tree summary == oracle.
 The extent lists are also judged by the proved Coq function Model.Wellformed.extents_ok (theorems
 C05_extents_ok_sound / _complete) and must agree with the Python sweep; the Coq models of CRC-32 and lookup3
 are evaluated on checksum-covered byte ranges taken from the files and compared with the stored values.
